@@ -263,6 +263,29 @@ def fold_static(tree, class_node=None):
                     keywords=list(node.keywords)), node)
             return node
 
+        def visit_If(self, node):
+            self.generic_visit(node)
+            # `if None is not None:` / `if "a" == "b":` — a test between constants (a default that the caller leaves alone)
+            # keeps one arm only
+            t = node.test
+            neg = False
+            if isinstance(t, ast.UnaryOp) and isinstance(t.op, ast.Not):
+                t, neg = t.operand, True
+            val = None
+            if isinstance(t, ast.Compare) and len(t.ops) == 1 and isinstance(t.left, ast.Constant) \
+                    and isinstance(t.comparators[0], ast.Constant) \
+                    and isinstance(t.ops[0], (ast.Is, ast.IsNot, ast.Eq, ast.NotEq)):
+                a, b = t.left.value, t.comparators[0].value
+                if isinstance(t.ops[0], (ast.Is, ast.IsNot)):
+                    if a is None or b is None or isinstance(a, bool) or isinstance(b, bool):
+                        val = (a is b) if isinstance(t.ops[0], ast.Is) else (a is not b)
+                elif type(a) is type(b):
+                    val = (a == b) if isinstance(t.ops[0], ast.Eq) else (a != b)
+            if val is None:
+                return node
+            arm = node.body if (val != neg) else node.orelse
+            return list(arm) if arm else ast.copy_location(ast.Pass(), node)
+
         def visit_Expr(self, node):
             self.generic_visit(node)
             c = node.value
@@ -982,6 +1005,13 @@ def _bind_call(h, call):
     for k in call.keywords:
         if k.arg:
             m[k.arg] = k.value
+    # a parameter that is not passed has its default (constants only: `ndigits=None`, `strict=False`)
+    if not any(isinstance(a, ast.Starred) for a in call.args) and not any(k.arg is None for k in call.keywords):
+        pos = h.args.args
+        for p_, d_ in list(zip(pos[len(pos) - len(h.args.defaults):], h.args.defaults)) + [
+                (p_, d_) for p_, d_ in zip(h.args.kwonlyargs, h.args.kw_defaults) if d_ is not None]:
+            if p_.arg not in m and p_.arg in ps + [a.arg for a in h.args.kwonlyargs] and isinstance(d_, ast.Constant):
+                m[p_.arg] = d_
     return m
 
 
@@ -1130,6 +1160,78 @@ def fully_expanded(expr, fn, rounds=4):
             break
         expr = new
     return expr
+
+
+def expansions(expr, fn, limit=8):
+    """the alternatives of `fully_expanded` when a local is bound by several plain assignments (a value refined under a
+    condition: `x = f(a)` then `if c: x = g(x)`): one expression per choice of definition, a definition that mentions the
+    name itself reading the other definitions there. At most `limit` alternatives; [fully_expanded] when every local
+    involved is bound once."""
+    single = single_assignments(fn)
+    params = {a.arg for a in fn.args.args + fn.args.kwonlyargs}
+    plain, other = {}, set()
+    for n in ast.walk(fn):
+        if isinstance(n, ast.Assign):
+            for t in n.targets:
+                if isinstance(t, ast.Name):
+                    plain.setdefault(t.id, []).append(n.value)
+                else:
+                    other |= {x.id for x in ast.walk(t) if isinstance(x, ast.Name)}
+        elif isinstance(n, (ast.AugAssign, ast.AnnAssign, ast.For, ast.comprehension, ast.NamedExpr)):
+            other |= {x.id for x in ast.walk(n.target) if isinstance(x, ast.Name)}
+        elif isinstance(n, ast.withitem) and n.optional_vars is not None:
+            other |= {x.id for x in ast.walk(n.optional_vars) if isinstance(x, ast.Name)}
+    # the statement list each assignment sits in: a later assignment in the *same* list as the first one replaces what was
+    # bound before (straight-line code), one in a nested block adds an alternative
+    block_of = {}
+    for n in ast.walk(fn):
+        for fld in ("body", "orelse", "finalbody"):
+            lst = getattr(n, fld, None)
+            if isinstance(lst, list):
+                for st in lst:
+                    if isinstance(st, ast.Assign):
+                        block_of[id(st.value)] = id(lst)
+    multi = {}
+    for k, vs in plain.items():
+        if k in single or k in params or k in other or len(vs) < 2 or len(vs) > 3:
+            continue
+        if any(isinstance(x, ast.Name) and x.id == k for x in ast.walk(vs[0])):
+            continue
+        vs = sorted(vs, key=lambda v: (getattr(v, "lineno", 0), getattr(v, "col_offset", 0))) \
+            if len({getattr(v, "lineno", 0) for v in vs}) == len(vs) else vs
+        alts = []
+        for v in vs:
+            selfref = any(isinstance(x, ast.Name) and x.id == k for x in ast.walk(v))
+            new = [substitute(v, {k: b}) for b in alts] if selfref else [v]
+            if block_of.get(id(v)) is not None and block_of.get(id(v)) == block_of.get(id(vs[0])):
+                alts = new
+            else:
+                alts = alts + new
+        if alts:
+            multi[k] = alts
+    outs = [fully_expanded(expr, fn)]
+    for _ in range(3):
+        nxt = []
+        for e in outs:
+            ks = sorted({x.id for x in ast.walk(e) if isinstance(x, ast.Name) and isinstance(x.ctx, ast.Load) and x.id in multi})
+            if not ks:
+                nxt.append(e)
+                continue
+            k = ks[0]
+            for alt in multi[k]:
+                e2 = substitute(e, {k: alt})
+                for _r in range(4):
+                    e3 = substitute(e2, single)
+                    if ast.dump(e3) == ast.dump(e2):
+                        break
+                    e2 = e3
+                nxt.append(e2)
+        if len(nxt) > limit:
+            break
+        if [ast.dump(x) for x in nxt] == [ast.dump(x) for x in outs]:
+            break
+        outs = nxt
+    return outs
 
 
 def set_parents(root):
@@ -1319,17 +1421,25 @@ def returned_expr(ret, fn=None):
 def reaching_value(stmt, name):
     """value of the last `name = <expr>` among the statements that precede `stmt` in its own block (None if there is
     none there): enough to look through `tmp = <expr>; self.a = tmp`"""
-    par = getattr(stmt, "_parent", None)
-    for field in ("body", "orelse", "finalbody"):
-        block = getattr(par, field, None)
-        if isinstance(block, list) and any(s is stmt for s in block):
-            i = next(k for k, s in enumerate(block) if s is stmt)
-            for s in reversed(block[:i]):
-                if isinstance(s, ast.Assign) and len(s.targets) == 1 and isinstance(s.targets[0], ast.Name) \
-                        and s.targets[0].id == name:
-                    return s.value
-                if any(isinstance(x, ast.Name) and x.id == name and isinstance(x.ctx, ast.Store) for x in ast.walk(s)):
-                    return None
+    cur = stmt
+    while cur is not None and not isinstance(cur, (ast.FunctionDef, ast.Lambda, ast.ClassDef, ast.Module)):
+        par = getattr(cur, "_parent", None)
+        for field in ("body", "orelse", "finalbody"):
+            block = getattr(par, field, None)
+            if isinstance(block, list) and any(s is cur for s in block):
+                i = next(k for k, s in enumerate(block) if s is cur)
+                for s in reversed(block[:i]):
+                    if isinstance(s, ast.Assign) and len(s.targets) == 1 and isinstance(s.targets[0], ast.Name) \
+                            and s.targets[0].id == name:
+                        return s.value
+                    if any(isinstance(x, ast.Name) and x.id == name and isinstance(x.ctx, ast.Store) for x in ast.walk(s)):
+                        return None
+        # nothing in this block: the statements that precede the enclosing `if` / `with` / `try` in *its* block reach
+        # the statement too (not across a loop: an assignment later in the loop body reaches it on the next iteration)
+        if isinstance(par, (ast.For, ast.While)) and any(
+                isinstance(x, ast.Name) and x.id == name and isinstance(x.ctx, ast.Store) for x in ast.walk(par)):
+            return None
+        cur = par
     return None
 
 
